@@ -256,3 +256,92 @@ def replay_capacity(task):
         if rec["outcome"] == "wrong":
             fails.append({"kind": "silent_wrong_answer_at_index_type_limit", "detail": rec.get("detail", "")})
     return {"fails": fails}
+
+
+def install_canaries(s):
+    """Replaces the three stacks of a solver by views (of their own height) into larger sentinel-filled buffers.
+    Returns a function telling which guard zones were written."""
+    phys = s.shr_domains_stack.shape[0]
+    physu = s.dom_update_stack.shape[0]
+    physf = s.not_entailed_propagators_stack.shape[0]
+    big = np.full((phys + GUARD,) + s.shr_domains_stack.shape[1:], SENT, dtype=np.int32)
+    big[:phys] = s.shr_domains_stack
+    s.shr_domains_stack = big[:phys]
+    bigu = np.full((physu + GUARD, 2), 60001, dtype=np.uint16)
+    bigu[:physu] = s.dom_update_stack
+    s.dom_update_stack = bigu[:physu]
+    bigf = np.zeros((physf + GUARD, s.not_entailed_propagators_stack.shape[1]), dtype=bool)
+    bigf[:physf] = s.not_entailed_propagators_stack
+    s.not_entailed_propagators_stack = bigf[:physf]
+
+    def hits():
+        out = []
+        if np.any(big[phys:] != SENT):
+            out.append("shr_domains_stack (%d rows allocated)" % phys)
+        if np.any(bigu[physu:] != 60001):
+            out.append("dom_update_stack (%d rows allocated)" % physu)
+        if np.any(bigf[physf:]):
+            out.append("not_entailed_propagators_stack (%d rows allocated)" % physf)
+        return out
+
+    return hits
+
+
+def tight_stack_case(model, cfg, max_solutions=3000):
+    """In-capacity boundary test for arbitrary models: measure the depth a search needs, then re-run it with the
+    smallest stack_max_height that completes, under canaries; results must be identical and no guard zone written."""
+    from framework import nucsmap as M
+
+    def run(height, canaries):
+        s = M.build_solver(model, dict(cfg, height=height))
+        hits = install_canaries(s) if canaries else (lambda: [])
+        sols = []
+        err = None
+        try:
+            for sol in s.solve():
+                sols.append(tuple(int(x) for x in sol))
+                if len(sols) >= max_solutions:
+                    break
+        except Exception as e:
+            err = "%s: %s" % (type(e).__name__, str(e)[:120])
+        return sols, err, hits(), int(s.statistics[11])
+
+    ref, err, _, depth = run(128, False)
+    rec = {"depth": depth}
+    if err:
+        rec["outcome"] = "skipped"
+        rec["detail"] = err
+        return rec
+    for h in range(max(1, depth - 1), depth + 4):
+        sols, err, hit, _ = run(h, True)
+        if hit:
+            rec.update(outcome="canary", height=h, detail="stack_max_height=%d (search depth %d): guard zone of %r "
+                       "written%s" % (h, depth, hit, "" if not err else " before " + err))
+            return rec
+        if err:
+            if "stack is full" in err:
+                continue
+            rec.update(outcome="error", height=h, detail="stack_max_height=%d: %s" % (h, err))
+            return rec
+        rec["height"] = h
+        if sols != ref:
+            rec.update(outcome="wrong", detail="stack_max_height=%d gives %d solutions, a large stack %d" % (
+                h, len(sols), len(ref)))
+        else:
+            rec["outcome"] = "correct"
+        return rec
+    rec["outcome"] = "refused"
+    rec["detail"] = "no height in [%d, %d] completes a search of depth %d" % (max(1, depth - 1), depth + 3, depth)
+    return rec
+
+
+def deep_gadget_model(k, rnd):
+    """k free three-valued variables (mid value pushes two levels each) followed by a gadget that bound consistency
+    leaves open and only shaving / search decides: the deepest node is reached with work left to do."""
+    n = k + 2
+    a, b = k, k + 1
+    doms = [[0, 2] for _ in range(k)] + [[0, 3], [0, 3]]
+    props = [[[a, b], "affine_eq", [1, 1, 3]], [[a, b, k - 1], "affine_eq", [1, -1, 3, 3]]]
+    if rnd.random() < 0.5:
+        props.append([[a, b], "alldifferent", []])
+    return {"doms": doms, "idx": list(range(n)), "off": [0] * n, "props": props}
